@@ -181,6 +181,14 @@ def run(chk):
         for k in range(n):
             desc = gen_schema.gen_desc(chk.rng, "fixed", max_fields=4, depth=1, nstructs=chk.rng.randint(1, 3))
             gen_schema.add_can_impls(chk.rng, desc, p=0.9)
+            if chk.rng.random() < 0.3:
+                # two services whose names differ only in spelling style: the C++ plug-in derives the same file names for both and
+                # returns those paths twice; what ends up in each file must be what was returned for it (the last one, as written)
+                names = [st["name"] for st in desc["structs"]]
+                a, b = chk.rng.choice([("MotorCtl", "motor_ctl"), ("motor_ctl", "MotorCtl"), ("LogSvc", "log_svc")])
+                desc["services"] = [{"name": nm, "id": q, "methods": [{"name": f"m{q}", "id": 0, "input": chk.rng.choice(names), "output": chk.rng.choice(names)}]}
+                                    for q, nm in enumerate((a, b))]
+                desc["devices"] = []
             text = gen_schema.render(desc)
             fcp = serde_run.parse(text).unwrap()
             house = None
